@@ -309,14 +309,26 @@ string read_all(int fd) {
   vector<string> buffers;
   for (;;) {
     buffers.emplace_back(read_size, 0);
-    ssize_t bytes_read = ::read(fd, buffers.back().data(), read_size);
-    if (bytes_read < 0) {
-      throw io_error(fd);
+    string& buffer = buffers.back();
+
+    // A short read does not mean end of data (pipes, sockets and terminals
+    // return whatever is available); only a zero-byte read does. Fill the
+    // block before starting another one.
+    ssize_t buffer_size = 0;
+    while (buffer_size < read_size) {
+      ssize_t bytes_read = ::read(fd, buffer.data() + buffer_size, read_size - buffer_size);
+      if (bytes_read < 0) {
+        throw io_error(fd);
+      }
+      if (bytes_read == 0) {
+        break;
+      }
+      buffer_size += bytes_read;
     }
 
-    total_size += bytes_read;
-    if (bytes_read < read_size) {
-      buffers.back().resize(bytes_read);
+    total_size += buffer_size;
+    if (buffer_size < read_size) {
+      buffer.resize(buffer_size);
       break;
     }
   }
